@@ -89,6 +89,26 @@ def gen(rng, tier, k):
                 for f in ("title", "artist", "creator", "description"):
                     ch["meta"][f] = rng.choice(HOSTILE)
         hist = charts.gen_history(rng) if rng.random() < 0.5 else []
+        if rng.random() < 0.2:
+            # tempo points that share a written millisecond: less than 1 ms apart (rows in or out of time order), or exactly
+            # coincident inside a long tempo list - the one in force must stay the one in force
+            for ch in spec["charts"]:
+                b = ch["bpms"]
+                t_last = max(x[0] for x in b) + 1000.0
+                kind = rng.choice(["sub_ms", "sub_ms_reversed", "long_coincident", "long_coincident_shuffled"])
+                if kind.startswith("sub_ms"):
+                    b += [[float(int(t_last)) + 0.25, 100.0, 4], [float(int(t_last)) + 0.75, 200.0, 4]]
+                    if kind.endswith("reversed"):
+                        b.reverse()
+                else:
+                    b += [[t_last + 50.0 * i, 60.0 + (i % 7) * 20.0, 4] for i in range(130)]
+                    j = rng.randrange(len(b) - 100, len(b) - 1)
+                    b[j + 1][0] = b[j][0]
+                    if b[j + 1][1] == b[j][1]:
+                        b[j + 1][1] += 5.0
+                    if kind.endswith("shuffled"):
+                        rng.shuffle(b)
+            return dict(cls="chart:tempo_on_one_ms", spec=spec, history=[])
         return dict(cls="chart" + (":history" if hist else ""), spec=spec, history=hist)
     game = rng.choice(list(CONV))
     kw = dict(keys=rng.choice([4, 7])) if game in ("osu", "sm") else {}
